@@ -4,18 +4,20 @@ import c18
 
 PROP = 'C12'
 BUILDS = ['safe']
+EXTRA_THEOREM_MODULES = ['DcVerif.Props.C12Graph']
 RULE = ('five families, each item list held in [T], Vec, VecDeque (ring buffer wrapped), BTreeMap, HashMap and a rebuilt twin Vec: '
         'assumptions (0–8, verify / verify_all histories of 1–12 calls, full dump of all six after every call), inferences and '
         'observations (0–10, value generators of C18: thresholds, ±0.0, NaN, truncation edges), causaloid collections (1–7 members, '
         'singletons of 4 causal-function kinds and collection causaloids of 1–3 singletons; reason_all_causes with data of '
         'the right length, too short (panic), all-true and mixed true/false/error values, every call made twice), causal graphs '
         '(1–8 nodes, random DAG; graph vs clone() vs rebuilt twin under reason_all_causes / subgraph / '
-        'single cause / shortest path). map keys: increasing (B-tree iterates like the Vec), permuted, sparse/large. '
+        'single cause / shortest path; the graph\'s own verdict of the first three replayed on Model.CausalGraph). map keys: increasing (B-tree iterates like the Vec), permuted, sparse/large. '
         'non-trivial = at least 2 members and a reasoning call; distinct = sha256 of the case text')
 ASSUMPTIONS = ['HashMap iteration order is external nondeterminism: reported through get_all_items(), checked to be a permutation '
                'of the members, stable between calls on an unmodified map',
                'the six holders of a case contain separately constructed items (no shared Arc flags between holders)',
-               'CausaloidGraph is not modelled in Lean for this property: graph / clone / twin are compared with each other on the real code',
+               'graphs: the verdict of graph, clone and twin is compared with each other and (reason_all_causes, subgraph, single cause) with Model.CausalGraph; '
+               'shortest-path verdicts and the activation aggregates of clone/twin are compared with each other on the real code only',
                'f64 as in C18 (bit patterns compared, NaN canonicalised)']
 
 
